@@ -249,6 +249,8 @@ type c12Req struct {
 	Want      []int             `json:"want_status"`
 	WantCode  int               `json:"want_code,omitempty"`
 	JSONResp  bool              `json:"json_response,omitempty"` // the handler is configured with JSONResponse
+	Notif     bool              `json:"notification,omitempty"`  // stateless: the POST carries a notification, not a call
+	Prelude   bool              `json:"prelude,omitempty"`       // the same handler first serves a request that arrived on a non-loopback address (a server listening on 0.0.0.0)
 }
 
 func b64h(s string) string { return "=?base64?" + base64.StdEncoding.EncodeToString([]byte(s)) + "?=" }
@@ -260,6 +262,7 @@ func genC12Req(r *vh.Rand) c12Req {
 		q.Host = r.Choose("example.com", "localhost:8080", "evil.test:8080")
 	}
 	q.JSONResp = q.Endpoint != "sse" && r.Chance(1, 3)
+	q.Prelude = q.Endpoint != "sse" && r.Chance(1, 4)
 	meta := `"_meta":{"io.modelcontextprotocol/protocolVersion":"2026-07-28","io.modelcontextprotocol/clientCapabilities":{},"io.modelcontextprotocol/clientInfo":{"name":"raw","version":"1"}}`
 	a := c12Strings[r.Intn(len(c12Strings))]
 	n := []int64{0, 7, -3, 1<<53 - 1}[r.Intn(4)]
@@ -302,6 +305,15 @@ func genC12Req(r *vh.Rand) c12Req {
 		q.Headers["Mcp-Param-N"] = fmt.Sprint(n)
 		q.Headers["Mcp-Param-B"] = fmt.Sprint(b)
 		q.Headers["Mcp-Param-Deep"] = enc(deep)
+		if r.Chance(1, 5) {
+			// a POST that carries only a notification is subject to the same header rules
+			q.Notif = true
+			q.Body = fmt.Sprintf(`{"jsonrpc":"2.0","method":"notifications/progress","params":{%s,"progressToken":"t","progress":1}}`, meta)
+			q.Headers["Mcp-Method"] = "notifications/progress"
+			for _, h := range []string{"Mcp-Name", "Mcp-Param-A", "Mcp-Param-N", "Mcp-Param-B", "Mcp-Param-Deep"} {
+				delete(q.Headers, h)
+			}
+		}
 	case "stateful":
 		q.Body = `{"jsonrpc":"2.0","id":1,"method":"initialize","params":{"protocolVersion":"2025-06-18","capabilities":{},"clientInfo":{"name":"raw","version":"1"}}}`
 		if r.Bool() {
@@ -311,7 +323,7 @@ func genC12Req(r *vh.Rand) c12Req {
 		q.Body = `{"jsonrpc":"2.0","id":1,"method":"ping"}`
 	}
 	q.Want = []int{200}
-	if q.Endpoint == "sse" {
+	if q.Endpoint == "sse" || q.Notif {
 		q.Want = []int{202}
 	}
 	if r.Chance(1, 4) {
@@ -324,6 +336,9 @@ func genC12Req(r *vh.Rand) c12Req {
 	}
 	if q.Endpoint == "sse" {
 		viol = []string{"host", "content-type"}
+	}
+	if q.Notif {
+		viol = []string{"host", "content-type", "size", "version-old", "version-mismatch", "version-header-missing", "method-missing", "method-mismatch", "method-mismatch"}
 	}
 	q.Violation = viol[r.Intn(len(viol))]
 	switch q.Violation {
@@ -362,6 +377,9 @@ func genC12Req(r *vh.Rand) c12Req {
 		q.Want, q.WantCode = []int{400}, -32020
 	case "method-mismatch":
 		q.Headers["Mcp-Method"] = r.Choose("tools/list", "TOOLS/CALL", "tools/call ")
+		if q.Notif {
+			q.Headers["Mcp-Method"] = r.Choose("notifications/cancelled", "Notifications/Progress", "tools/call")
+		}
 		q.Want, q.WantCode = []int{400}, -32020
 	case "name-missing":
 		delete(q.Headers, "Mcp-Name")
@@ -462,6 +480,17 @@ func c12Soundness(c *vh.Case) {
 		synctestWait()
 		reached.Store(0)
 	}
+	if q.Prelude {
+		// whether a connection is a loopback one is a property of that connection, not of the handler
+		ip2 := &vhm.InProc{Handler: h, LocalAddr: &net.TCPAddr{IP: net.IPv4(10, 1, 2, 3), Port: 8080}}
+		ip2.Do(ctx, "POST", "http://example.com/mcp", map[string]string{"Host": "example.com", "Content-Type": "application/json", "Accept": "application/json, text/event-stream"}, []byte(`{"jsonrpc":"2.0","id":99,"method":"ping"}`))
+		ip2.Wait()
+		synctestWait()
+		reached.Store(0)
+		rmu.Lock()
+		methods = nil
+		rmu.Unlock()
+	}
 	hdr := map[string]string{}
 	for k, v := range q.Headers {
 		hdr[k] = v
@@ -520,7 +549,7 @@ func c12Soundness(c *vh.Case) {
 		c.Violate("valid-request-rejected", "request meeting every precondition answered HTTP %d (%s; content-type %s): %s", st, trunc80(string(body)), rh.Get("Content-Type"), vh.JSON(q))
 		return
 	}
-	if reached.Load() == 0 {
+	if reached.Load() == 0 && !q.Notif { // an accepted notification on a stateless endpoint may be dropped with its one-request session
 		c.Violate("valid-request-rejected", "request meeting every precondition never reached the MCP server (HTTP %d): %s", st, vh.JSON(q))
 		return
 	}
